@@ -21,14 +21,13 @@ func set(_ context.Context, v rel.Value) (rel.Value, error) {
 	if !isNumber || float64(n) < 0 {
 		return nil, fmt.Errorf("argument not a non-negative number: %v", v)
 	}
-	b := rel.NewSetBuilder()
-	if float64(n) == float64(int(n)) {
-		for v := int(n); v != 0; v &= v - 1 {
-			b.Add(rel.NewNumber(float64(bits.TrailingZeros64(uint64(v)))))
-		}
-	} else {
+	if float64(n) != float64(int(n)) {
 		// TODO: Mask reals using negative indices.
-		panic("unimplemented")
+		return nil, fmt.Errorf("//bits.set: argument not an integer below 2^63: %v", v)
+	}
+	b := rel.NewSetBuilder()
+	for v := int(n); v != 0; v &= v - 1 {
+		b.Add(rel.NewNumber(float64(bits.TrailingZeros64(uint64(v)))))
 	}
 	return b.Finish()
 }
